@@ -2,6 +2,7 @@ package main
 
 import (
 	"fmt"
+	"regexp"
 	"go/token"
 	"go/types"
 	"strings"
@@ -308,12 +309,33 @@ func (u *Unit) applyPre(st *State, c *FuncContract, env *SpecEnv, name string, p
 	return !st.dead
 }
 
+var unknownIdentRe = regexp.MustCompile(`unknown identifier "([^"]+)"`)
+
+// calleeHasLocal: does the contract's function have a local variable of that name?
+func (u *Unit) calleeHasLocal(c *FuncContract, name string) bool {
+	fn := u.eng.fnByKey[c.Key()]
+	if fn == nil {
+		return false
+	}
+	for _, b := range fn.Blocks {
+		for _, in := range b.Instrs {
+			if a, ok := in.(*ssa.Alloc); ok && a.Comment == name {
+				return true
+			}
+		}
+	}
+	return false
+}
+
 func (u *Unit) applyPost(st *State, c *FuncContract, env *SpecEnv) {
 	for _, en := range c.Ensures {
 		if err := u.assumeClause(st, env, en.Expr); err != nil {
 			msg := err.Error()
-			if strings.Contains(msg, "unknown identifier") || strings.Contains(msg, "cannot resolve") || strings.Contains(msg, "needs a local variable") {
+			if m := unknownIdentRe.FindStringSubmatch(msg); m != nil && u.calleeHasLocal(c, m[1]) {
 				// a postcondition about the callee's locals: meaningful only inside the callee
+				continue
+			}
+			if strings.Contains(msg, "needs a local variable") {
 				continue
 			}
 			u.fail(fmt.Sprintf("%s: ensures %q at call: %v", en.Where, en.Src, err))
